@@ -11,9 +11,10 @@ enabled transition of the model with the same observables, `skip` after a reject
 Queue tags (payload): q-new(arg=max) push-enter(x) push-test(arg=saw) push-size(arg=n)
   push-full-waited(arg=n) push-locked(arg=n, woken tid|-) pop-now(arg=n, item|-) pop-block
   pop-wake(arg=n, item|-) pop-rewait trypop(arg=n, item|-) sd-enter sd-flag sd-locked
-  item = `<producer>:<value>`; in pool mode values are tasks `j.<id>.<v|e>.<n>` / `stop`.
+  item = `<producer>:<value>`; in pool mode values are tasks `j.<id>.<outcome>` / `stop`,
+  outcome = `v.<n>` | `s.<class>.<payload>` (derived from std::exception) | `o.<type>.<payload>` (any other type).
 Pool tags: worker-got(arg=0/1) task-run(payload=id) worker-exit dtor-start dtor-pushed
-  dtor-join(payload=worker) dtor-done future-get(payload=`<id>.<v|e>.<n>`)
+  dtor-join(payload=worker) dtor-done future-get(payload=`<id>.<outcome>`)
 Validation uses `spurious := true` (C++ allows spurious wake-ups).
 -/
 import Osmium.Model.PoolSM
@@ -27,19 +28,20 @@ inductive Sim where
   | pool (c : PoolSM.Cfg) (qid : Option Nat) (s : PoolSM.State)
   | dead
 
-def parseOutcome (k n : String) : Option PoolSM.Outcome := do
-  let n ← n.toNat?
-  match k with
-  | "v" => some (.value n)
-  | "e" => some (.exc n)
+/-- `v.<n>` value | `s.<cls>.<payload>` exception derived from std::exception |
+    `o.<ty>.<payload>` exception of any other type -/
+def parseOutcome : List String → Option PoolSM.Outcome
+  | ["v", n] => n.toNat?.map .value
+  | ["s", c, n] => do some (.stdExc (← c.toNat?) (← n.toNat?))
+  | ["o", t, n] => do some (.otherExc (← t.toNat?) (← n.toNat?))
   | _ => none
 
 def parseTask (s : String) : Option PoolSM.Task :=
   match s.splitOn "." with
   | ["stop"] => some .stop
-  | ["j", id, k, n] => do
+  | "j" :: id :: rest => do
     let id ← id.toNat?
-    let o ← parseOutcome k n
+    let o ← parseOutcome rest
     some (.job id o)
   | _ => none
 
@@ -94,9 +96,9 @@ def parsePoolEv (t : Tid) (tag : String) (arg : Nat) (pl : String) : Option Pool
   | "dtor-done" => some (.dtorDone t)
   | "future-get" =>
     match pl.splitOn "." with
-    | [id, k, n] => do
+    | id :: rest => do
       let id ← id.toNat?
-      let o ← parseOutcome k n
+      let o ← parseOutcome rest
       some (.futureGet t id o)
     | _ => none
   | _ => (parseQEv parseTask parseTaskItem t tag arg pl).map .q
